@@ -102,24 +102,25 @@ impl QueryEngine {
         Ok(engine)
     }
 
-    /// Register `metrics` for the given chunk paths, then execute the operation.
+    /// Register `metrics` for the given chunk paths, then plan against it.
     ///
-    /// The registration lock is released before `operation` runs so that slow
-    /// queries do not block other concurrent requests from registering their
-    /// own chunk sets.
-    pub async fn with_metrics_table<F, Fut, T>(
-        &self,
-        chunk_paths: &[String],
-        operation: F,
-    ) -> Result<T>
+    /// `plan` runs while the registration lock is held: the plan it creates
+    /// resolves the name `metrics` to the table registered for *these* chunk
+    /// paths and keeps that table, so a concurrent request re-binding `metrics`
+    /// cannot change what this request scans. Run the returned plan after this
+    /// call has returned (the lock is released by then), so that slow queries do
+    /// not block other concurrent requests from registering their own chunk sets.
+    pub async fn with_metrics_table<F, Fut, T>(&self, chunk_paths: &[String], plan: F) -> Result<T>
     where
         F: FnOnce() -> Fut,
         Fut: Future<Output = Result<T>>,
     {
-        self.register_metrics_table_for_chunks(chunk_paths).await?;
+        let _guard = self.metrics_table_query_lock.lock().await;
+        self.register_metrics_table_for_chunks_locked(chunk_paths)
+            .await?;
         #[cfg(feature = "verif_hooks")]
         crate::verif_hooks::pause_point("query.after_register").await;
-        operation().await
+        plan().await
     }
 
     /// Register the logical `metrics` table over a set of chunk paths.
@@ -266,11 +267,23 @@ impl QueryEngine {
         Ok(self.ctx.sql_with_options(sql, read_only).await?)
     }
 
-    /// Execute a SQL query
-    pub async fn execute(&self, sql: &str) -> Result<Vec<RecordBatch>> {
-        let df = self.plan_user_sql(sql).await?;
+    /// Plan a SQL query without running it.
+    ///
+    /// The returned plan holds the tables the names resolved to at this point.
+    pub async fn plan(&self, sql: &str) -> Result<DataFrame> {
+        self.plan_user_sql(sql).await
+    }
+
+    /// Run a planned query
+    pub async fn collect(&self, df: DataFrame) -> Result<Vec<RecordBatch>> {
         let batches = df.collect().await?;
         Ok(batches)
+    }
+
+    /// Execute a SQL query
+    pub async fn execute(&self, sql: &str) -> Result<Vec<RecordBatch>> {
+        let df = self.plan(sql).await?;
+        self.collect(df).await
     }
 
     /// Execute a SQL query with index awareness for adaptive indexing
@@ -280,8 +293,19 @@ impl QueryEngine {
         tenant_id: &str,
         index_controller: Arc<crate::adaptive_index::AdaptiveIndexController>,
     ) -> Result<Vec<RecordBatch>> {
+        let df = self.plan(sql).await?;
+        self.collect_with_indexes(df, tenant_id, index_controller)
+            .await
+    }
+
+    /// Run a planned query with index awareness for adaptive indexing
+    pub async fn collect_with_indexes(
+        &self,
+        df: DataFrame,
+        tenant_id: &str,
+        index_controller: Arc<crate::adaptive_index::AdaptiveIndexController>,
+    ) -> Result<Vec<RecordBatch>> {
         // 1. Analyze query for filter predicates
-        let df = self.plan_user_sql(sql).await?;
         let plan = df.logical_plan();
         let filter_columns = Self::extract_filter_columns(plan);
 
@@ -981,7 +1005,10 @@ mod tests {
         use futures::TryStreamExt;
         let objects: Vec<_> = object_store.list(None).try_collect().await.unwrap();
         assert!(objects.is_empty());
-        engine.execute("SELECT COUNT(*) FROM metrics").await.unwrap();
+        engine
+            .execute("SELECT COUNT(*) FROM metrics")
+            .await
+            .unwrap();
         engine
             .execute("EXPLAIN ANALYZE SELECT COUNT(*) FROM metrics")
             .await
